@@ -832,6 +832,21 @@ func (w *qWorld) checkStats() {
 			}
 		}
 	}
+	// at quiescence no connection counts more messages in flight than its channel
+	// holds in flight altogether (a leaked count starves the connection: with
+	// RDY <= count it is never sent anything again)
+	for _, t := range doc.Topics {
+		for _, c := range t.Channels {
+			sum := int64(0)
+			for _, cl := range c.Clients {
+				sum += cl.InFlightCount
+			}
+			if sum > c.InFlightCount {
+				w.violate("C13", "client-in-flight-leak", "channel %s/%s has %d messages in flight but its connections count %d", t.TopicName, c.ChannelName, c.InFlightCount, sum)
+				w.violate("C03", "client-in-flight-leak", "channel %s/%s has %d messages in flight but its connections count %d", t.TopicName, c.ChannelName, c.InFlightCount, sum)
+			}
+		}
+	}
 	// topic counters
 	for name, t := range w.topics {
 		st := doc.topic(name)
